@@ -52,6 +52,14 @@ Proof.
   intros A B A' B' R R' h1 h2 l1 l2 H Hh. induction H; cbn [map]; constructor; auto.
 Qed.
 
+Lemma f2_in_right : forall {A B} (R : A -> B -> Prop) l1 l2 o,
+  Forall2 R l1 l2 -> In o l2 -> exists x, In x l1 /\ R x o.
+Proof.
+  intros A B R l1 l2 o H. induction H as [|x y l1 l2 Hxy H IH]; intro Ho; [destruct Ho|].
+  destruct Ho as [<-|Ho]; [exists x; split; [left; reflexivity | assumption]|].
+  destruct (IH Ho) as [z [Hz Hr]]. exists z. split; [right; assumption | assumption].
+Qed.
+
 Lemma f2_impl : forall {A B} (R R' : A -> B -> Prop) l1 l2,
   Forall2 R l1 l2 -> (forall x y, R x y -> R' x y) -> Forall2 R' l1 l2.
 Proof. intros A B R R' l1 l2 H Hh. induction H; constructor; auto. Qed.
@@ -763,4 +771,195 @@ Section Sim.
         destruct con; [|assumption]. pose proof (ob_ca_inc_mono (lp_ca l) (sb_sess x) s0). lia.
   Qed.
 
+
+  Lemma sim_notify_res : forall r y RA RB l w r' l' outs,
+    ob_notify_res p r l = (r', l', outs) ->
+    sim_res r y -> ob_res_ok r ->
+    aw_res w = RA ++ y :: RB -> (forall z, In z RA -> ar_id z <> ar_id y) ->
+    aw_fl w = lp_fl l -> aw_nk w = lp_nk l -> aw_cnt w = lp_ca l ->
+    exists w' y',
+      ac_outs c w outs = inl w' /\ aw_res w' = RA ++ y' :: RB /\ ar_id y' = ar_id y /\
+      aw_fl w' = lp_fl l' /\ aw_nk w' = lp_nk l' /\ aw_cnt w' = lp_ca l' /\
+      sim_res r' y' /\
+      (forall o, In o (ar_obs y') -> ao_chg o = 0 \/ pr_nstart p <= ob_ca_get (lp_ca l') (ao_s o)) /\
+      (forall s, ob_ca_get (lp_ca l) s <= ob_ca_get (lp_ca l') s).
+  Proof.
+    intros r y RA RB l w r' l' outs H [Sid [Smode Ssubs]] [U [R D]] Hres HRA Hfl Hnk Hcnt.
+    unfold ob_notify_res in H. destruct y as [yid yobs]. cbn [ar_id ar_obs] in *. subst yid.
+    destruct (rs_dirty r || rs_pdirty r) eqn:C.
+    - destruct (ob_notify_subs p r (rs_subs r) l) as [[[subs' pd] l0] outs0] eqn:E.
+      inversion H; subst r' l' outs. clear H.
+      destruct (sim_notify_subs r RA RB (rs_subs r) [] yobs l w subs' pd l0 outs0 E Smode R Ssubs
+                  (proj1 U)) as [w' [obs' [K1 [K2 [K3 [K4 [K5 [K6 [K7 K8]]]]]]]]]; try assumption.
+      + intros ? [].
+      + exists w', (mk_ar (rs_id r) obs'). cbn [app] in K2. cbn [ar_id ar_obs].
+        repeat split; try assumption; unfold sim_res; cbn; auto.
+    - inversion H; subst r' l' outs. clear H. apply orb_false_iff in C. destruct C as [C1 C2].
+      exists w, (mk_ar (rs_id r) yobs). cbn [ac_outs ar_id ar_obs].
+      repeat split; try assumption; try lia.
+      + cbn. rewrite <- C1. exact Ssubs.
+      + intros o Ho. left.
+        assert (Hx : exists x, In x (rs_subs r) /\ sim_sub (rs_mode r) (rs_obs r) (rs_dirty r) x o).
+        { exact (f2_in_right _ _ _ o Ssubs Ho). }
+        destruct Hx as [x [Hx [_ [_ [_ [_ [_ [_ [A7 [_ [A9 _]]]]]]]]]]].
+        destruct (Z.eq_dec (ao_chg o) 0) as [|Hne]; [assumption|]. exfalso.
+        assert (0 < ao_chg o) as Hpos by lia. destruct (A9 Hpos) as [Hd|Hd]; [congruence|].
+        rewrite (D x Hx Hd) in C2. discriminate.
+  Qed.
+
+  Lemma sim_ids : forall rs ars, Forall2 sim_res rs ars -> map rs_id rs = map ar_id ars.
+  Proof.
+    intros rs ars H. induction H as [|x y rs ars [Hid _] H IH]; cbn [map]; [reflexivity|].
+    f_equal; assumption.
+  Qed.
+
+  Lemma sim_notify_all : forall rs ars RA l w rs' l' outs,
+    ob_notify_all p rs l = (rs', l', outs) ->
+    Forall2 sim_res rs ars -> Forall ob_res_ok rs -> NoDup (map ar_id (RA ++ ars)) ->
+    aw_res w = RA ++ ars -> aw_fl w = lp_fl l -> aw_nk w = lp_nk l -> aw_cnt w = lp_ca l ->
+    exists w' ars',
+      ac_outs c w outs = inl w' /\ aw_res w' = RA ++ ars' /\
+      aw_fl w' = lp_fl l' /\ aw_nk w' = lp_nk l' /\ aw_cnt w' = lp_ca l' /\
+      Forall2 sim_res rs' ars' /\
+      (forall y o, In y ars' -> In o (ar_obs y) ->
+                   ao_chg o = 0 \/ pr_nstart p <= ob_ca_get (lp_ca l') (ao_s o)) /\
+      (forall s, ob_ca_get (lp_ca l) s <= ob_ca_get (lp_ca l') s).
+  Proof.
+    induction rs as [|r tl IH]; intros ars RA l w rs' l' outs H HF Hok Hnd Hres Hfl Hnk Hcnt;
+      cbn [ob_notify_all] in H.
+    - inversion H; subst. inversion HF; subst. exists w, []. cbn [ac_outs].
+      split; [reflexivity|]. split; [assumption|]. split; [assumption|]. split; [assumption|].
+      split; [assumption|]. split; [constructor|]. split; [intros ? ? [] | intro; lia].
+    - destruct (ob_notify_res p r l) as [[r1 l1] o1] eqn:E1.
+      destruct (ob_notify_all p tl l1) as [[tl' l2] o2] eqn:E2. inversion H; subst rs' l' outs. clear H.
+      inversion HF as [|r0 y tl0 atl Hry HFtl]; subst r0 tl0 ars. inversion Hok; subst.
+      assert (HRA : forall z, In z RA -> ar_id z <> ar_id y).
+      { intros z Hz Heq. rewrite map_app in Hnd. cbn [map] in Hnd. apply NoDup_remove_2 in Hnd.
+        apply Hnd. apply in_app_iff. left. rewrite <- Heq. apply in_map. assumption. }
+      destruct (sim_notify_res r y RA atl l w r1 l1 o1 E1 Hry H1 Hres HRA Hfl Hnk Hcnt)
+        as [w1 [y' [K1 [K2 [K3 [K4 [K5 [K6 [K7 [K8 K9]]]]]]]]]].
+      destruct (IH atl (RA ++ [y']) l1 w1 tl' l2 o2 E2 HFtl H2)
+        as [w2 [atl' [J1 [J2 [J3 [J4 [J5 [J6 [J7 J8]]]]]]]]]; try assumption.
+      + rewrite <- app_assoc. cbn [app]. rewrite map_app in *. cbn [map] in *. rewrite K3. assumption.
+      + rewrite <- app_assoc. exact K2.
+      + exists w2, (y' :: atl'). rewrite ac_outs_app, K1. rewrite <- app_assoc in J2. cbn [app] in J2.
+        repeat split; try assumption.
+        * constructor; assumption.
+        * intros y0 o [<-|Hy0] Ho; [|eapply J7; eassumption].
+          destruct (K8 o Ho) as [Hz|Hb]; [left; assumption | right]. specialize (J8 (ao_s o)). lia.
+        * intro s0. specialize (K9 s0). specialize (J8 s0). lia.
+  Qed.
+
+  Lemma sim_iostep : forall st a ca st' outs,
+    sim st a -> ob_iostep p st ca = (st', outs) ->
+    exists a', ac_iostep c a ca outs = AcOk a' /\
+               Forall2 sim_res (st_res st') (as_res a') /\ st_fl st' = as_fl a' /\ st_nk st' = as_nk a'.
+  Proof.
+    intros st a ca st' outs [Hok [HR [Hfl Hnk]]] H. unfold ob_iostep in H. unfold ac_iostep.
+    pose proof Hok as [A [B C]].
+    assert (Hsettle : forall ars cnt,
+              (forall y o, In y ars -> In o (ar_obs y) ->
+                           ao_chg o = 0 \/ pr_nstart p <= ob_ca_get cnt (ao_s o)) ->
+              ac_all_settled c cnt ars = true).
+    { intros ars cnt Hs. unfold ac_all_settled. apply forallb_forall. intros y Hy.
+      apply forallb_forall. intros o Ho. unfold ac_settled. rewrite Hns.
+      destruct (Hs y o Hy Ho) as [Hz|Hb]; [rewrite Hz; reflexivity|].
+      apply orb_true_iff. right. apply Z.leb_le. assumption. }
+    destruct (st_pending st) eqn:P.
+    - destruct (ob_notify_all p (st_res st) (mk_lp ca false (st_nk st) (st_fl st) (st_ref st)))
+        as [[rs l] outs0] eqn:E. inversion H; subst st' outs. clear H.
+      destruct (sim_notify_all (st_res st) (as_res a) [] _
+                  (mk_aw (as_res a) (as_fl a) (as_nk a) (as_sent a) ca) rs l outs0 E HR B)
+        as [w' [ars' [K1 [K2 [K3 [K4 [K5 [K6 [K7 K8]]]]]]]]]; cbn; try congruence.
+      + rewrite <- (sim_ids _ _ HR). assumption.
+      + rewrite K1. cbn [app] in K2. rewrite K2, K5, (Hsettle ars' (lp_ca l) K7).
+        eexists. split; [reflexivity|]. cbn. auto.
+    - inversion H; subst st' outs. clear H. cbn [ac_outs aw_res aw_cnt].
+      rewrite Hsettle.
+      + eexists. split; [reflexivity|]. cbn. auto.
+      + intros y o Hy Ho. left.
+        (* nothing is pending: no resource and no subscription is flagged *)
+        assert (Hx : exists r x, In r (st_res st) /\ In x (rs_subs r) /\
+                       sim_sub (rs_mode r) (rs_obs r) (rs_dirty r) x o).
+        { destruct (f2_in_right _ _ _ y HR Hy) as [r [Hr [_ [_ Cs]]]].
+          destruct (f2_in_right _ _ _ o Cs Ho) as [x [Hx Hs]].
+          exists r, x. auto. }
+        destruct Hx as [r [x [Hr [Hx [_ [_ [_ [_ [_ [_ [A7 [_ [A9 _]]]]]]]]]]]]].
+        destruct (Z.eq_dec (ao_chg o) 0) as [|Hne]; [assumption|]. exfalso.
+        assert (0 < ao_chg o) as Hpos by lia.
+        rewrite Forall_forall in B. destruct (B r Hr) as [_ [_ D]].
+        destruct (A9 Hpos) as [Hd|Hd].
+        * discriminate (C r Hr (or_introl Hd)).
+        * discriminate (C r Hr (or_intror (D x Hx Hd))).
+  Qed.
+
+  Lemma sim_step : forall st a op st' outs,
+    sim st a -> ob_step p st op = (st', outs) ->
+    exists a', ac_step c a (op, outs) = AcOk a' /\ sim st' a'.
+  Proof.
+    intros st a op st' outs S H.
+    assert (Hok' : ob_ok st').
+    { pose proof (ob_step_ok p st op (proj1 S)) as K. rewrite H in K. exact K. }
+    assert (Hcase : (exists ca, op = OpIoStep ca) \/ (forall ca, op <> OpIoStep ca)).
+    { destruct op; try (right; intros; discriminate). left. eexists. reflexivity. }
+    destruct Hcase as [[ca ->]|Hq].
+    - cbn [ob_step] in H. destruct (sim_iostep st a ca st' outs S H) as [a' [E1 [E2 [E3 E4]]]].
+      exists a'. split; [exact E1|]. unfold sim. auto.
+    - destruct (sim_step_quiet st a op st' outs Hq S H) as [a' [E1 [E2 [E3 E4]]]].
+      exists a'. split; [exact E1|]. unfold sim. auto.
+  Qed.
+
+  Lemma sim_run : forall ops st a i,
+    sim st a -> exists a', ac_run c a i (snd (ob_run p st ops)) = inl a'.
+  Proof.
+    induction ops as [|op tl IH]; intros st a i S; cbn [ob_run].
+    - exists a. reflexivity.
+    - destruct (ob_step p st op) as [st1 outs] eqn:E.
+      destruct (sim_step st a op st1 outs S E) as [a1 [E1 S1]].
+      specialize (IH st1 a1 (i + 1) S1). destruct (ob_run p st1 tl) as [st2 tr]. cbn [snd] in *.
+      cbn [ac_run]. rewrite E1. exact IH.
+  Qed.
+
 End Sim.
+
+(* ------------------------------------------------------------------ the initial states correspond *)
+
+Lemma sim_init_res : forall c0 modes id0,
+  (forall y, In y (ob_init_res id0 modes) -> rs_mode y = ac_mode c0 (rs_id y)) ->
+  Forall2 (sim_res c0) (ob_init_res id0 modes) (ac_init_res id0 (map fst modes)).
+Proof.
+  intros c0. induction modes as [|[m v] tl IH]; intros id0 H; cbn [ob_init_res ac_init_res map];
+    constructor.
+  - unfold sim_res. cbn. split; [reflexivity|]. split; [|constructor].
+    apply (H (mk_res id0 m false (v mod 16777216) false false [])). left. reflexivity.
+  - apply IH. intros y Hy. apply H. right. assumption.
+Qed.
+
+Lemma ac_mode_init : forall modes id0 y,
+  In y (ob_init_res id0 modes) -> rs_mode y = ac_mode_from id0 (map fst modes) (rs_id y).
+Proof.
+  induction modes as [|[m v] tl IH]; intros id0 y H; cbn [ob_init_res map ac_mode_from] in *;
+    [destruct H|].
+  destruct H as [<-|H].
+  - cbn. rewrite Z.eqb_refl. reflexivity.
+  - pose proof (ob_init_res_ids _ _ _ H) as Hge.
+    assert (id0 =? rs_id y = false) as -> by (apply Z.eqb_neq; lia). apply IH. assumption.
+Qed.
+
+(* C11, the for-all part: whatever the clients, the application, the network and the NSTART
+   accounting do (any op sequence, any con_active values, any initial Observe counters, any
+   NSTART and any COAP_OBS_MAX_NON >= 0), the history the model produces is accepted *)
+Theorem ob_model_accepted : forall p modes ops,
+  0 <= pr_max_non p -> pr_max_fail p <= 1 ->
+  ac_accepts (mk_cf (map fst modes) (pr_nstart p) (pr_max_non p) false)
+             (snd (ob_run p (ob_init modes) ops)) = true.
+Proof.
+  intros p modes ops H1 H2. unfold ac_accepts.
+  set (c0 := mk_cf (map fst modes) (pr_nstart p) (pr_max_non p) false).
+  assert (S : sim c0 (ob_init modes) (ac_init c0)).
+  { unfold sim. split; [apply ob_init_ok|]. split; [|split; reflexivity].
+    unfold ob_init, ac_init. cbn. apply sim_init_res. intros y Hy. unfold ac_mode. cbn.
+    apply ac_mode_init. assumption. }
+  destruct (sim_run p c0 eq_refl eq_refl H1 H2 eq_refl ops _ _ 0 S) as [a' E].
+  rewrite E. reflexivity.
+Qed.
